@@ -269,6 +269,15 @@ def cache_obligation(repo, chk, u):
         # the key text contains the function sources and the call expression
         defs = rd.at(lookups[0][0].id, kname)
         txt = " ".join(norm(d.value) for d in defs if d.value is not None)
+        # local names used in the text are resolved one level (call_text = call_node.as_string())
+        for d in defs:
+            if d.value is None:
+                continue
+            for x in ast.walk(d.value):
+                if isinstance(x, ast.Name):
+                    for d2 in rd.at(d.node, x.id):
+                        if d2.kind == "assign" and d2.value is not None:
+                            txt += " " + norm(d2.value)
         ok = "constexpr_functions_code" in txt and "call_node.as_string()" in txt
         chk.judge("R11.a", "utils:_eval_constexpr_cache:key text contains function sources and call", ok,
                   "the program text no longer contains both the constexpr function sources and the call expression", None, where)
